@@ -37,6 +37,13 @@
 (*   Crc32Patch(data, pos, target) data with bytes pos+1..pos+4 (1-based)    *)
 (*                                 replaced so that Crc32 = target           *)
 (*   FixOk(data, out, pos, target) post-condition of such a forgery          *)
+(*                                                                         *)
+(* Measured in TLC (one worker, 300-byte messages), ms per byte:             *)
+(*   32 bits: tabled 0.04, bitwise 0.6, back bitwise 1.1, back tabled 10;    *)
+(*   64 bits: tabled 0.23, bitwise 1.8, back bitwise 2.5;                    *)
+(*   CrcTable: 28 ms (32 bits), 58 ms (64 bits); Crc32Patch of 300 bytes     *)
+(*   0.16 s.  CrcTabled rebuilds the table at each call: bind CrcTable(P)    *)
+(*   once and use CrcRegTabled when a polynomial is used repeatedly.         *)
 (***************************************************************************)
 EXTENDS Words
 
